@@ -72,3 +72,25 @@ Example C22_example :
   | _ => ([], [])
   end = ([("a", "b", 25); ("a", "c", 5); ("world", "c", 45)], [(("a", "USD"), 20)]).
 Proof. vm_compute. reflexivity. Qed.
+
+(* ---------- the machine itself: the emitted bytecode computes what Sem computes ----------
+   For every successful run of Sem there is the environment of the run such that executing the instruction stream the
+   compiler model emits (Compile.gen; equal byte for byte to the real compiler's output on every program of the tie
+   `nsbc`), with APUSH operands read by their denotation, ends with an empty stack and exactly Sem's postings (same
+   order), metadata and tracked balances: C22 / C23 / C28 therefore hold of that instruction stream, not only of Sem.
+   Covers all statement forms. Remaining gap (tie only): resolution of the concrete resource table at the assigned
+   addresses. *)
+From LV Require Import Machine.EnvProofs Machine.Vm Machine.Compile Machine.CompileCorrect.
+Theorem C22_machine_refines_sem_code : forall p given s r, run p given s = Ok r ->
+  exists te e, chk_vars [] (pvars p) = Some te /\ cons_env te e /\ env_valid e /\
+    exec (sym_look e) (code (sp_events (gen p))) (vm_init (rinit r)) =
+    Ok {| vstk := []; vbal := rbal r; vposts := all_postings r; vtx := rtx r; vacc := racc r |}.
+Proof. exact code_refines_sem. Qed.
+Print Assumptions C22_machine_refines_sem_code.
+
+(* every construct, as an equation between executing its code and its big-step meaning (here: whole statements) *)
+Theorem C22_statement_code : forall te e ve, cons_env te e -> venv_ok te ve ->
+  forall s, chk_stmt te s = true -> forall k stk ms,
+  exec (sym_look e) (code (gen_stmt ve s) ++ k) (vm_of ms stk) = do ms1 <- exec_stmt e s ms; exec (sym_look e) k (vm_of ms1 stk).
+Proof. intros te e ve Hc Hv. exact (exec_stmt_correct te e ve Hc Hv). Qed.
+Print Assumptions C22_statement_code.
